@@ -1153,4 +1153,33 @@ theorem effects_current {p : Prog} (hwf : WF p = true) (ht : bodiesTracked p = t
   · rw [h.quiet.idle z.1] at h1; cases h1
   · rw [hv] at h1; exact Option.some.inj h1
 
+/-- stronger form: not only at idle — whenever a read-only effect has no pending notification
+(`chan = false`) it is current -/
+theorem effect_current_of_unnotified {p : Prog} (hwf : WF p = true) (ht : bodiesTracked p = true)
+    (ops : List Op) (hops : ∀ o ∈ ops, o.plain = true) (i : Nat)
+    (hk : ((run p ops).get i).kind = .eff) (hro : RO p i) (hch : ((run p ops).get i).chan = false) :
+    ((run p ops).get i).runs ≠ 0 ∧
+    ∀ z ∈ ((run p ops).get i).seen, specVal p (run p ops) z.1 = z.2.1 := by
+  have h := run_topC (memoOK_of_wf hwf) (effOK_of_wf hwf ht) ops hops
+  generalize run p ops = s at h hk hch
+  have hb := h.conv.base i hk (h.quiet.idle i)
+  have hc := h.conv.eff i hk (h.quiet.idle i) (by simp)
+  have q := hc.quietFlags hch
+  refine ⟨hb.ran q.2, ?_⟩
+  intro z hz
+  have hsrc : z.1 ∈ (s.get i).sources := by rw [hb.srcSeen]; exact List.mem_map_of_mem hz
+  have hzi : z.1 < i := h.quiet.inv.srcLt i z.1 hsrc
+  have hi : i < s.nodes.length := s.lt_of_kind_ne (by rw [hk]; simp)
+  have hzp : z.1 < p.length := by rw [← h.quiet.inv.len]; omega
+  have hdat := h.quiet.inv.srcData i z.1 hsrc
+  have hcl : (s.get z.1).st = .clean := by
+    cases hkz : (s.get z.1).kind with
+    | eff => exact absurd hkz hdat
+    | sig => exact (h.quiet.inv.sigOk z.1 hzp hkz).1
+    | memo => exact hc.srcClean hch z.1 hsrc hkz
+  have hv := h.quiet.inv.clean_correct hwf (memoTracked_of ht) z.1 hzp hdat hcl
+  rcases hc.vals hro q.1 z hz with h1 | h1
+  · rw [h.quiet.idle z.1] at h1; cases h1
+  · rw [hv] at h1; exact Option.some.inj h1
+
 end Leptos.Reactive
